@@ -46,6 +46,33 @@ func runReplayAny(fs *flag.FlagSet, prop string, seed uint64, n int, out, file s
 			if impl != naive {
 				return fail("the crossing counter reports %d, the order has %d crossings", impl, naive)
 			}
+		case hdr.Function == "order":
+			var c orderCase
+			json.Unmarshal(hdr.Case, &c)
+			_, a, rep := autog.VerifOrder(graph.EdgeSlice(c.Edges), c.Layers)
+			sum := 0
+			for _, x := range rep {
+				sum += x
+			}
+			if n := naiveCrossingsIn(a); len(rep) > 0 && sum != n {
+				return fail("the ordering phase reports %v crossings, the order it installs has %d", rep, n)
+			}
+		case len(hdr.Function) > 6 && hdr.Function[:6] == "route-":
+			var c routeCase
+			json.Unmarshal(hdr.Case, &c)
+			var c05, c06, ov string
+			func() {
+				defer func() {
+					if rec := recover(); rec != nil {
+						ov = fmt.Sprint("panic: ", rec)
+					}
+				}()
+				_, a := autog.VerifRoute(c.Alg, c.Route, graph.EdgeSlice(c.Edges), c.Layers, c.Sizes, c.Virtual, c.NS, c.LS, c.BK)
+				c05, c06 = routeProblems(c.Route, a)
+			}()
+			if c05+c06+ov != "" {
+				return fail("%s %s %s", c05, c06, ov)
+			}
 		case len(hdr.Function) > 4 && hdr.Function[:4] == "pos-":
 			var c posCase
 			json.Unmarshal(hdr.Case, &c)
